@@ -32,7 +32,7 @@ def main():
                 print(f"MUTANT-ERROR: text not found in {rel}: {old!r}")
                 return 3
             open(p, "w").write(s.replace(old, new, 1))
-        env = dict(os.environ, VERIF_SRC=root + "/src", VERIF_SCRATCH="1")
+        env = dict(os.environ, VERIF_SRC=root + "/src", VERIF_SCRATCH=os.environ.get("VERIF_SCRATCH", "mut%d" % os.getpid()))
         rc_all = {}
         if "--tests" in flags:
             shutil.copytree("/repo/tests", root + "/tests", ignore=shutil.ignore_patterns("__pycache__"))
